@@ -93,14 +93,12 @@ def run(ctx):
   for n in walk_local(pc.node):
     if isinstance(n, ast.Call) and u(n.func) == 'isinstance' and len(n.args) == 2 and u(n.args[1]).startswith('config_parser.'):
       consumed.add(u(n.args[1]).split('.')[-1])
-  for n in walk_local(pc.node):
-    if isinstance(n, ast.If) and 'isinstance(statement' in u(n.test):
-      cur = n
-      while cur.orelse and len(cur.orelse) == 1 and isinstance(cur.orelse[0], ast.If):
-        cur = cur.orelse[0]
-      if cur.orelse and isinstance(cur.orelse[-1], ast.Raise):
+  g_pc, f_pc = std_facts(prog, pc)
+  for n in g_pc.live_nodes():
+    if n.kind == 'raise_stmt' and n.loops:
+      neg = {fct[1] for fct in f_pc[n.id] if fct[0] == 'c' and fct[2] is False and fct[1].startswith('isinstance(statement, config_parser.')}
+      if len(neg) >= len(KINDS):
         chain_else_raises = True
-      break
   ctx.check(produced == consumed and produced == set(KINDS), 'C03.kinds', construct(pc),
             'the statement kinds the parser produces are exactly those the consumer dispatches on: %s' % sorted(produced),
             'parser produces %s, consumer handles %s' % (sorted(produced), sorted(consumed)), pc.loc(), instance='agree')
